@@ -47,7 +47,9 @@ pub fn execute(arena: &mut arena::Arena, stats: &mut Stats, t: &Trace, mask: u32
 
 fn main() {
     let args: Vec<String> = std::env::args().collect();
-    std::panic::set_hook(Box::new(|_| {}));
+    if std::env::var("VERIF_PANICS").is_err() {
+        std::panic::set_hook(Box::new(|_| {}));
+    }
     let cmd = args.get(1).map(|s| s.as_str()).unwrap_or("");
     let code = match cmd {
         "worker" => worker(&args[2..]),
